@@ -1,7 +1,7 @@
 (* C02 -- property theorems only.  Each is closed by [exact <lemma>] (or a two-line combination) and
    followed by Print Assumptions.  [O] is an arbitrary property package + solver; [contracts O] is
-   what is assumed about it (homogeneity of H and S in mol, H(0) = 0, and: a returned temperature
-   satisfies the equation that was to be solved). *)
+   what is assumed about it (homogeneity of H and S in mol, H(0) = 0, 'L'/'S' use the models of 'l'/'s', and: a
+   returned temperature satisfies the equation that was to be solved). *)
 From V Require Import Common.NumFacts C02.Model C02.Proofs.
 Open Scope Q_scope.
 
@@ -36,6 +36,28 @@ Theorem C02_mix_frame : forall O st r others Q0 st',
   length st' = length st /\ forall k, k <> r -> nth_error st' k = nth_error st k.
 Proof. exact mix_frame_lemma. Qed.
 Print Assumptions C02_mix_frame.
+
+(* mixing succeeds whenever the temperature solver answers (it never gets to the convert-to-multi-phase fallback);
+   the side condition concerns MaterialIndexer.copy_like between different phase sets, which is not modelled *)
+Theorem C02_mix_total : forall O st r others Q0 self,
+  solver_total O -> sget st r = Ok self ->
+  (forall i o, streams_of st others = [i] -> sget st i = Ok o -> multi self = true -> multi o = true ->
+               phases self = phases o) ->
+  exists st', mix_from O st r others Q0 = Ok st'.
+Proof. exact mix_total_lemma. Qed.
+Print Assumptions C02_mix_total.
+
+(* the stub package: no hypothesis on the oracles is left *)
+Theorem C02_mix_energy_stub : forall cn hf Tref st r others Q0 st' ins s',
+  Forall wfs st ->
+  mix_from (lin_oracles cn hf Tref) st r others Q0 = Ok st' ->
+  streams_of st others <> [] ->
+  sget_all st (streams_of st others) = Ok ins ->
+  sget st' r = Ok s' ->
+  ~ total s' == 0 ->
+  getH (lin_oracles cn hf Tref) s' == qsum (map (getH (lin_oracles cn hf Tref)) ins) + (Q0 + heats others).
+Proof. exact mix_energy_stub_lemma. Qed.
+Print Assumptions C02_mix_energy_stub.
 
 (* ---------------------------------------------------------------- separating *)
 Theorem C02_sep_energy : forall O st r o st' sr so s',
@@ -117,14 +139,8 @@ Proof. intros O s C F. exact (set_with_idem (Smix O) (solveS O) s (cS_homog _ C)
 Print Assumptions C02_setS_idem.
 
 (* when the solver always answers, the assignment succeeds *)
-Theorem C02_setH_total : forall O s h,
-  (forall m x Tg P, exists T', solveH O m x Tg P = Ok T') -> exists s', setH O s h = (s', None).
-Proof.
-  intros O s h Tot. unfold setH, set_with, solve_into.
-  destruct (qzerob h && isempty s); [eexists; reflexivity|].
-  destruct (Tot (pm s) h (sT s) (sP s)) as [T' E]. rewrite E.
-  destruct (multi s); eexists; reflexivity.
-Qed.
+Theorem C02_setH_total : forall O s h, solver_total O -> exists s', setH O s h = (s', None).
+Proof. exact setH_total_lemma. Qed.
 Print Assumptions C02_setH_total.
 
 (* ---------------------------------------------------------------- the in-repo part of the temperature solver *)
